@@ -368,6 +368,16 @@ func ErrArgumentRequiredOnField(argName, fieldName ast.ByteSlice) (err ExternalE
 	return err
 }
 
+func ErrArgumentRequiredOnDirective(argName, directiveName ast.ByteSlice) (err ExternalError) {
+	err.Message = fmt.Sprintf("argument: %s is required on directive: @%s but missing", argName, directiveName)
+	return err
+}
+
+func ErrArgumentOnDirectiveMustNotBeNull(argName, directiveName ast.ByteSlice) (err ExternalError) {
+	err.Message = fmt.Sprintf("argument: %s on directive: @%s must not be null", argName, directiveName)
+	return err
+}
+
 func ErrArgumentOnFieldMustNotBeNull(argName, fieldName ast.ByteSlice) (err ExternalError) {
 	err.Message = fmt.Sprintf("argument: %s on field: %s must not be null", argName, fieldName)
 	return err
